@@ -11,7 +11,7 @@ from vmon.libutil import XTCE_NS, monitored, xtce_element
 LEVEL = "exploration"
 SHARDS = {"quick": 16, "thorough": 16}
 MUST = ["int.evaluations", "ieee16.evaluations", "ieee32.evaluations", "ieee64.evaluations", "mil1750a.evaluations",
-        "route.from_xml", "route.ctor", "repeated_references.packets", "route.copied_types", "route.copied_decodes", "legacy.spellings", "context-not-applying.cases", "same-raw-object.redecodes"]
+        "route.from_xml", "route.ctor", "route.cross_typed_decodes", "offsets.deeper_than_first_byte", "repeated_references.packets", "route.copied_types", "route.copied_decodes", "legacy.spellings", "context-not-applying.cases", "same-raw-object.redecodes"]
 RULE = ("ParameterType.parse_value is executed on packets whose field bits are chosen by the harness; every "
         "execution is compared with an explicit model (two's complement / byte reversal / IEEE-754 "
         "sign-exponent-mantissa arithmetic / 1750A rationals) for value, Python class, raw_value and cursor "
@@ -52,6 +52,16 @@ class Types:
         if key in self.cache:
             return self.cache[key]
         from space_packet_parser.xtce import encodings, parameter_types
+        if route.endswith("+xtype"):
+            # the encoding under the OTHER numeric parameter type (an integer-encoded FloatParameterType is ordinary XTCE): what is
+            # decoded - value, class, raw value - is the encoding's business
+            if kind == "int":
+                t = parameter_types.FloatParameterType("T", encodings.IntegerDataEncoding(n, enc, byte_order=BO[little]))
+            else:
+                t = parameter_types.IntegerParameterType("T", encodings.FloatDataEncoding(n, encoding=enc, byte_order=BO[little]))
+            self.ctx.count("route.cross_typed")
+            self.cache[key] = t
+            return t
         if route.endswith("+deepcopy") or route.endswith("+copy"):
             # a copy of an encoding is an encoding (definitions are copied, e.g. one per worker): it must decode identically
             import copy
@@ -93,6 +103,9 @@ def check_one(ctx, types, kind, n, enc, little, offset, fieldbits, pclass, rng, 
     if variant in (1, 3) and isinstance(types, Types):
         route = route + ("+deepcopy" if variant == 1 else "+copy")
         ctx.count("route.copied_decodes")
+    elif variant == 2 and isinstance(types, Types) and ctx.counters["evaluations"] % 3 == 0:
+        route = "ctor+xtype"
+        ctx.count("route.cross_typed_decodes")
     t = types.get(kind, n, enc, little, route)
     pkt = make_packet(fieldbits, offset, rng)
     step = monitored(t.parse_value, pkt)
@@ -282,8 +295,12 @@ def run(ctx):
                 item += 1
                 if not ctx.mine(item):
                     continue
-                for offset in range(8):
+                # bit offsets 0..7 relative to a byte boundary, at the start of the buffer and deeper inside it (incl. the positions
+                # where a CCSDS primary header would keep its own fields: the buffer here is arbitrary data, not a packet)
+                for offset in list(range(8)) + [16, 19, 24, 32, 32 + (n % 8), 40, 45, 48, 48 + 1 + (n % 7)]:
                     route = "ctor" if (offset + n) % 2 else "from_xml"
+                    if offset >= 8:
+                        ctx.count("offsets.deeper_than_first_byte")
                     for pclass, fb in int_patterns(n, rng, nrand):
                         check_one(ctx, types, "int", n, enc, little, offset, fb, pclass, rng, route)
     ctx.exhaustive_space("int widths 1..72,128 x enc x byteorder x offsets 0..7 x 8 boundary patterns", 1)
